@@ -282,7 +282,7 @@ func contractServes(ct *Contract, prop string, reachable bool) bool {
 	if containsStr(ct.Props, prop) || containsStr(ct.Safety, prop) {
 		return true
 	}
-	for _, l := range [][]*Clause{ct.Requires, ct.Ensures, ct.Invs, ct.Always, ct.Steps, ct.Decrs, ct.RetReqs} {
+	for _, l := range [][]*Clause{ct.Requires, ct.Ensures, ct.Invs, ct.Always, ct.Steps, ct.Decrs, ct.RetReqs, ct.CallReqs} {
 		for _, c := range l {
 			if containsStr(c.Props, prop) {
 				return true
